@@ -147,6 +147,48 @@ func parenC03(c *Ctx, tt *tokenTable) {
 		}
 	}
 	parenPrintC03(c)
+	// --- a whole expression is parsed for an operand only inside parentheses ---
+	c.Rule("C03.operandexpr", "every ParseExpr call in parseUnaryExpr has its result stored into a ParenExpr (the group in parentheses): an operand that is parsed as a whole expression without being wrapped takes the rest of the operator chain with it, and the printed text regroups")
+	{
+		pex := p.SSAFunc(p.Method("Parser", "ParseExpr"))
+		n := 0
+		for _, b := range pu.Blocks {
+			for _, in := range b.Instrs {
+				call, ok := in.(*ssa.Call)
+				if !ok || call.Call.StaticCallee() != pex {
+					continue
+				}
+				n++
+				key := fmt.Sprintf("(*Parser).parseUnaryExpr: ParseExpr #%d", n)
+				wrapped, returned := false, false
+				for _, ref := range *call.Referrers() {
+					ex, ok := ref.(*ssa.Extract)
+					if !ok || ex.Index != 0 {
+						continue
+					}
+					for _, r2 := range *ex.Referrers() {
+						switch x := r2.(type) {
+						case *ssa.Store:
+							if fa, ok := x.Addr.(*ssa.FieldAddr); ok && p.TypeStr(fa.X.Type()) == "*ParenExpr" {
+								wrapped = true
+							}
+						case *ssa.Return:
+							returned = true
+						}
+					}
+				}
+				switch {
+				case returned:
+					c.Bad("C03.operandexpr", key, call.Pos(), "the expression parsed for an operand is returned bare: `a * +b - c` groups as a * (b - c)")
+				case wrapped:
+					c.OK("C03.operandexpr", key, call.Pos(), "stored into a ParenExpr")
+				default:
+					c.Unk("C03.operandexpr", key, call.Pos(), "the result is neither wrapped in a ParenExpr nor returned directly")
+				}
+			}
+		}
+		c.Floor("C03.operandexpr", n, 1)
+	}
 	binPrintC03(c, "C03.binprint")
 	// the grouping a text denotes survives printing only if every operand
 	// position holds a single operand
